@@ -17,6 +17,8 @@ const (
 	coinFlipLabel = "coinflip"
 	dieRollLabel  = "dieroll"
 	repeatLabel   = "@repeat"
+
+	forceStopTries = 1000
 )
 
 func bitmask64(n uint) uint64 {
@@ -252,11 +254,21 @@ func (r *repeat) more(s bitStream) bool {
 	pCont := r.pContinue
 	if r.count < r.minCount {
 		pCont = 1
-	} else if r.forceStop || r.count >= r.maxCount {
+	} else if r.count >= r.maxCount {
 		pCont = 0
 	}
 
 	cont := flipBiasedCoin(s, pCont)
+	for n := 0; cont && r.forceStop; n++ {
+		// Rejected attempts are pruned from the recorded data, so a replay does not
+		// see what has forced the stop: only stop on a coin which stops by itself.
+		if n == forceStopTries {
+			panic(invalidData("too many rejections in repeat"))
+		}
+		s.endGroup(r.group, true)
+		r.group = s.beginGroup(r.label, true)
+		cont = flipBiasedCoin(s, pCont)
+	}
 	if verifOn {
 		verifEmit("repeat.more", "label", r.label, "min", r.minCount, "max", r.maxCount, "count", r.count, "rejections", r.rejections, "force", r.forceStop, "pCont", pCont, "cont", cont)
 	}
